@@ -168,6 +168,34 @@ func init() {
 	}
 	specialExternals["fmt.Errorf"] = nonNilErr
 	specialExternals["errors.New"] = nonNilErr
+	// text/template: Parse remembers the template text, Execute renders it into the writer's buffer,
+	// (*bytes.Buffer).String reads the buffer. render(text, data) is an uninterpreted function:
+	// rendering is assumed deterministic (false only for randInt, listed as an assumption).
+	specialExternals["text/template.(*Template).Parse"] = func(x *Exec, call *ast.CallExpr, fn *types.Func, recv *Term, args []Term, st *State) []Term {
+		n := x.ghostCounter(st, "extcalls")
+		t := x.ctx.App("tmpl_parsed", SInt, n, args[0])
+		t = x.name(st, "tmpl", t)
+		e := x.ctx.App("tmpl_parse_err", SInt, args[0])
+		st.assume(implies(eq(e, intLit(0)), and(mk(SBool, ">", t, intLit(0)), eq(x.ctx.App("tmpl_text", SStr, t), args[0]))))
+		x.noteLastErr(st, fn, []Term{t, e})
+		return []Term{t, e}
+	}
+	specialExternals["text/template.(*Template).Execute"] = func(x *Exec, call *ast.CallExpr, fn *types.Func, recv *Term, args []Term, st *State) []Term {
+		x.siteObligations(call, fn, recv, args, st)
+		text := x.ctx.App("tmpl_text", SStr, *recv)
+		e := x.ctx.App("tmpl_exec_err", SInt, text, args[1])
+		out := x.ctx.App("spec_render", SStr, text, args[1])
+		// the writer is an io.Writer holding a *bytes.Buffer: its content becomes the rendering
+		buf := x.ctx.App("unbox_Int", SInt, args[0])
+		h := x.heapGet(st, "G_bufContent", arraySort(SInt, SStr))
+		x.heapSet(st, "G_bufContent", store(h, buf, ite(eq(e, intLit(0)), out, x.ctx.Fresh("partial", SStr))))
+		x.noteLastErr(st, fn, []Term{e})
+		return []Term{e}
+	}
+	specialExternals["bytes.(*Buffer).String"] = func(x *Exec, call *ast.CallExpr, fn *types.Func, recv *Term, args []Term, st *State) []Term {
+		h := x.heapGet(st, "G_bufContent", arraySort(SInt, SStr))
+		return []Term{sel(h, *recv)}
+	}
 	// ast.Walk(v, node) calls v.Visit repeatedly: whatever Visit's contract assigns may change
 	specialExternals["go/ast.Walk"] = func(x *Exec, call *ast.CallExpr, fn *types.Func, recv *Term, args []Term, st *State) []Term {
 		vt := x.typeOf(call.Args[0])
